@@ -324,3 +324,8 @@ pub(crate) fn vlayout_of(l: &DatabaseLayout) -> VLayout {
 // H3: snapshots of the ownership bookkeeping and reachability through redb's own walkers
 mod snapshot;
 pub use snapshot::*;
+
+// C15: the key a branch page stores between two children (btree_base::branch_separator), for any key type
+pub fn branch_separator<K: crate::Key>(left: &[u8], right: &[u8]) -> Vec<u8> {
+    crate::tree_store::btree_base::branch_separator::<K>(left, right).into_owned()
+}
